@@ -514,7 +514,7 @@ def check_linear_forms(ctx):
                 continue
             for i, r in enumerate(rets):
                 got = denote(r, d, keep=("self", other))
-                construct = f"{m.key}:return#{i}"
+                construct = f"{m.key}:return:{norm(r)[:60]}"  # keyed by content: the canonical view may list the exits in another order
                 if got is None:
                     ctx.undecided(R3, construct, f"return expression {short(r)} is outside the arithmetic fragment", f"{m.module.relpath}:{r.lineno}")
                 else:
@@ -527,7 +527,7 @@ def check_linear_forms(ctx):
     for i, r in enumerate(rets):
         got = denote(r, d, keep=("self", other))
         want = p_mul(p_atom("self"), p_atom(other))
-        ctx.check(poly_eq(got, want), R3, f"{m.key}:scalar-branch#{i}", "term * number scales the coefficient by the number", f"term * number returns {short(r)} which denotes {show(got)}, expected {show(want)}", f"{m.module.relpath}:{r.lineno}")
+        ctx.check(poly_eq(got, want), R3, f"{m.key}:scalar-branch:{norm(r)[:60]}", "term * number scales the coefficient by the number", f"term * number returns {short(r)} which denotes {show(got)}, expected {show(want)}", f"{m.module.relpath}:{r.lineno}")
     if not rets:
         ctx.undecided(R3, f"{m.key}:scalar-branch", "no `self.copy(...)` return for the numeric operand", m)
     # first two branches of PauliTerm.__mul__ with a sum: (PauliSum([self]) * other)
@@ -538,7 +538,7 @@ def check_linear_forms(ctx):
         # commutative polynomials cannot see operand order: check it syntactically too
         e = _Denote().visit(copy.deepcopy(r))
         order_ok = isinstance(e, ast.BinOp) and isinstance(e.op, ast.Mult) and norm(e.left) == "self" and norm(e.right) == other
-        ctx.check(poly_eq(got, want) and order_ok, R3, f"{m.key}:sum-branch#{i}", "term * sum = (sum of the term) * sum, receiver on the left", f"term * sum returns {short(r)}: " + ("operands are swapped (sums do not commute)" if poly_eq(got, want) else f"denotes {show(got)}"), f"{m.module.relpath}:{r.lineno}")
+        ctx.check(poly_eq(got, want) and order_ok, R3, f"{m.key}:sum-branch:{norm(r)[:60]}", "term * sum = (sum of the term) * sum, receiver on the left", f"term * sum returns {short(r)}: " + ("operands are swapped (sums do not commute)" if poly_eq(got, want) else f"denotes {show(got)}"), f"{m.module.relpath}:{r.lineno}")
 
 
 def _check_sum_comprehension(ctx, m, other, dunder, d: Defs):
@@ -865,7 +865,7 @@ def check_simplify(ctx):
             zero = len(c.args) >= 2 and _is_zero(c.args[1])
             tol = [kw for kw in c.keywords if kw.arg in ("atol", "rtol", "abs_tol", "rel_tol")]
             loose = [kw for kw in tol if _const_gt(kw.value, 1e-8 if kw.arg in ("atol", "abs_tol") else 1e-5)]
-            ctx.check(zero and not loose, R5, f.key + f":drop-test#{i}:{short(c, 40)}", "terms are dropped only when the coefficient is within the default tolerance of 0", f"drop test {short(c)} " + ("compares with something other than 0" if not zero else f"spells a tolerance looser than the library's 1e-8 ({short(loose[0].value) if loose else ''})"), f"{f.module.relpath}:{c.lineno}")
+            ctx.check(zero and not loose, R5, f.key + f":drop-test:{short(c, 40)}", "terms are dropped only when the coefficient is within the default tolerance of 0", f"drop test {short(c)} " + ("compares with something other than 0" if not zero else f"spells a tolerance looser than the library's 1e-8 ({short(loose[0].value) if loose else ''})"), f"{f.module.relpath}:{c.lineno}")
     # result
     rets = returned_exprs(f.node)
     ok = len(rets) == 1 and isinstance(rets[0], ast.Call) and dotted(rets[0].func) == "PauliSum"
